@@ -28,10 +28,13 @@ pub fn judge(files: &BTreeMap<String, Vec<u8>>, resolve: &Resolve, world: WorldI
             // listed finding: a type declared in the world itself and named `string` gets the C
             // name of the world's own string type
             let w = &resolve.worlds[world];
-            let c_name = format!("{}_string_t", heck::ToSnakeCase::to_snake_case(w.name.as_str()));
-            let world_type_named_string = resolve.types.iter().any(|(_, t)| t.name.as_deref() == Some("string") && t.owner == wit_parser::TypeOwner::World(world));
+            let wsnake = heck::ToSnakeCase::to_snake_case(w.name.as_str());
             let first = e.lines().find(|l| l.contains("error")).unwrap_or("");
-            if world_type_named_string && first.contains("redefinition") && first.contains(&c_name) {
+            let world_type_named_like_builtin = backends::C_HEADER_OWN_TYPES.iter().any(|n| {
+                let c_name = format!("{wsnake}_{}", heck::ToSnakeCase::to_snake_case(*n));
+                resolve.types.iter().any(|(_, t)| t.name.as_deref() == Some(*n) && t.owner == wit_parser::TypeOwner::World(world)) && (first.contains(&format!("{c_name}_t")) || first.contains(&format!("struct {c_name}'")))
+            });
+            if world_type_named_like_builtin && first.contains("redefinition") {
                 return Err(Failure::new(backends::KF_C_WORLD_TYPE_NAMED_STRING, format!("clang --target=wasm32 rejects the generated C ({variant}): {e}\n{ctx}")));
             }
             // listed finding: `stream<%bool>` and `stream<bool>` (likewise futures) share one set
